@@ -8,7 +8,7 @@
 EXTENDS Integers, Sequences, FiniteSets, TLC
 
 IntKinds == {"int", "int64", "uint64", "uint", "uintptr"}      \* (int32 etc.: a plain int differs in size and is rejected, cell diffsize)
-Kinds == {"ptr", "error", "any", "slice", "map", "chan", "func", "struct", "array", "int", "float", "string", "bool"} \cup IntKinds
+Kinds == {"ptr", "error", "any", "slice", "map", "chan", "func", "struct", "handle", "array", "int", "float", "string", "bool"} \cup IntKinds   \* handle: a struct with exactly one pointer field
 \* "intconst": a condition written as a plain constant (type int) on an integer parameter of kind k (When path only):
 \* it selects exactly the calls whose argument has that value - compared as a value of the declared type, however large
 Classes == {"nil", "typednil", "zero", "val", "concrete", "nilconcrete", "lookalike", "samesize", "diffsize", "intconst"}
@@ -23,7 +23,7 @@ Cell(k, c) == CASE c = "intconst" -> k \in IntKinds
                 [] c \in {"zero", "val"} -> k \notin IfaceK
                 [] c = "concrete" -> k \in IfaceK
                 [] c = "nilconcrete" -> k \in IfaceK          \* a typed nil pointer IS a concrete value: (*T)(nil) into error / interface{}
-                [] c = "lookalike" -> k \in {"struct", "ptr"}
+                [] c = "lookalike" -> k \in {"struct", "ptr", "handle"}
                 [] c = "samesize" -> k \in {"int", "float", "struct"}
                 [] c = "diffsize" -> k \in {"int", "float", "struct", "array", "string", "bool", "slice", "map"}
 
@@ -41,7 +41,7 @@ Impl(k, c) ==
     LET isnil == c = "nil" IN
     LET sameType == c \in {"typednil", "zero", "val"} IN
     LET sizeEq == c # "diffsize" IN
-    IF ~isnil /\ ~sameType /\ k \in {"struct", "ptr"}
+    IF ~isnil /\ ~sameType /\ k \in {"struct", "ptr", "handle"}
     THEN (IF ~sizeEq THEN "rejected" ELSE "retyped")                                    \* cast
     ELSE IF isnil /\ k \in (Nilable \cup {"array"}) THEN "typedzero"
     ELSE IF isnil THEN "rejected"                                                       \* v.Type() on the zero Value panics
